@@ -134,16 +134,76 @@ func concurrentFacts(repo string) (string, error) {
 	// ---- promise.go: which methods run under the mutex; how Wait looks at the message
 	var locked []string
 	waitUnderMutex, waitOnCond := false, false
+	failCond, recoverTakes := "", "unknown"
+	var putsBroadcast []string
 	for _, d := range files["promise.go"].Decls {
 		fd, ok := d.(*ast.FuncDecl)
 		if !ok || fd.Recv == nil || fd.Body == nil {
 			continue
 		}
 		stmts := fd.Body.List
+		if fd.Name.Name == "fulfill" || fd.Name.Name == "fail" {
+			// every statement that places a message in the mailbox is followed by a Broadcast
+			// on the condition variable the waiters sleep on
+			puts, woken := 0, 0
+			for i, st := range stmts {
+				if c19Render(fset, st) == "p.message <- r" {
+					puts++
+					if i+1 < len(stmts) && c19Render(fset, stmts[i+1]) == "p.set.Broadcast()" {
+						woken++
+					}
+				}
+			}
+			putsBroadcast = append(putsBroadcast, fmt.Sprintf("(%q, %d, %d)", fd.Name.Name, puts, woken))
+		}
 		switch fd.Name.Name {
+		case "fail":
+			// the test that decides whether the promise can still be failed
+			for _, st := range stmts {
+				if is, ok := st.(*ast.IfStmt); ok && failCond == "" {
+					failCond = c19Render(fset, is.Cond)
+				}
+			}
 		case "Fulfill", "Fail", "Recover", "Break":
 			ok := len(stmts) >= 2 && c19Render(fset, stmts[0]) == "p.m.Lock()" && c19Render(fset, stmts[1]) == "defer p.m.Unlock()"
 			locked = append(locked, fmt.Sprintf("(%q, %v)", fd.Name.Name, ok))
+			if fd.Name.Name == "Recover" {
+				// where does Recover take the message: only inside `if p.recoverable { … }`
+				// (and never in its else branch), or also outside it?
+				inside, outside := 0, 0
+				var walk func(n ast.Node, guarded bool)
+				walk = func(n ast.Node, guarded bool) {
+					ast.Inspect(n, func(m ast.Node) bool {
+						if m == nil || m == n {
+							return true
+						}
+						if is, ok := m.(*ast.IfStmt); ok && c19Render(fset, is.Cond) == "p.recoverable" {
+							walk(is.Body, true)
+							if is.Else != nil {
+								walk(is.Else, false)
+							}
+							return false
+						}
+						if ce, ok := m.(*ast.CallExpr); ok && c19Render(fset, ce.Fun) == "p.messageState" {
+							if guarded {
+								inside++
+							} else {
+								outside++
+							}
+						}
+						return true
+					})
+				}
+				walk(fd.Body, false)
+				switch {
+				case outside > 0:
+					recoverTakes = "always"
+				case inside > 0:
+					recoverTakes = "when-recoverable"
+				default:
+					recoverTakes = "never"
+				}
+			}
 		case "Wait":
 			lockAt, takeAt, hookAt, putAt, unlockAt := -1, -1, -1, -1, -1
 			for i, st := range stmts {
@@ -168,7 +228,9 @@ func concurrentFacts(repo string) (string, error) {
 		}
 	}
 	fmt.Fprintf(&sb, "def settersLocked : List (String × Bool) := [%s]\n", strings.Join(locked, ", "))
-	fmt.Fprintf(&sb, "def waitTakesUnderMutex : Bool := %v\ndef waitSleepsOnCond : Bool := %v\n\n", waitUnderMutex, waitOnCond)
+	fmt.Fprintf(&sb, "def waitTakesUnderMutex : Bool := %v\ndef waitSleepsOnCond : Bool := %v\n", waitUnderMutex, waitOnCond)
+	fmt.Fprintf(&sb, "def failCond : String := %q\ndef recoverTakesMessage : String := %q\n", failCond, recoverTakes)
+	fmt.Fprintf(&sb, "def putsThenBroadcast : List (String × Nat × Nat) := [%s]\n\n", strings.Join(putsBroadcast, ", "))
 	sb.WriteString("end Biogo.Generated.Concurrent\n")
 	return sb.String(), nil
 }
